@@ -343,6 +343,16 @@ def run(ctx, R, tier):
             R.check(bad is None, "C07-R6", "%s|user-exception-propagates:%s#%d" % (g.name, unparse(c.func, 30), sites.index(c)), "an exception raised by user code leaves this call site unchanged (re-raised or wrapped as is)",
                     g.loc(c), "the handler at %s swallows or replaces exceptions of the user's code called by `%s`: the caller receives a different exception (or none)" % (
                         g.loc(bad) if bad is not None else "", unparse(c, 50)))
+    # the property gates run the accessor itself: `getattr(obj, name)` instead of `descriptor.fget(obj)` turns an AttributeError raised by the user's getter into a call of the
+    # object's __getattr__ fallback - the caller gets an unrelated value (or another error) instead of the getter's exception
+    for gq, acc in (("Pyro5.server._get_exposed_property_value", "fget"), ("Pyro5.server._set_exposed_property_value", "fset")):
+        gg = ctx.fn(gq)
+        direct = [c for c, _ in ctx.cg.calls_of(gg) if isinstance(c.func, ast.Attribute) and c.func.attr == acc]
+        if not direct:
+            n6 += 1
+        R.check(bool(direct), "C07-R6", "%s|accessor-run-directly" % gg.name, "the exposed property's %s is called directly, so what it raises is what leaves the gate" % acc, gg.loc(),
+                "%s reaches the property through getattr()/setattr() on the object: an AttributeError from the user's accessor is swallowed by the attribute protocol "
+                "(__getattr__ fallback) and never reported to the caller" % gg.name)
     if n6 < 5:
         raise AnalysisError("fewer user-code call sites on the dispatch path than expected (%d)" % n6)
     # the daemon's default error hook runs inside the except block that holds the user's exception: if it raises, its error replaces the user's
